@@ -514,12 +514,13 @@ pub fn generate(d: &mut Draw, thorough: bool) -> Project {
         let mut hn: Vec<&str> = Vec::new();
         let n_handles = 1 + d.below(4) as usize;
         for hi in 0..n_handles {
-            let name = loop {
-                let c = *d.pick(HANDLE_NAMES);
-                if !hn.contains(&c) {
-                    break c;
-                }
-            };
+            // linear probe from a drawn start: terminates on an exhausted choice
+            // sequence too (n_handles ≤ 4 < HANDLE_NAMES.len())
+            let mut ni = d.below_usize(HANDLE_NAMES.len());
+            while hn.contains(&HANDLE_NAMES[ni]) {
+                ni = (ni + 1) % HANDLE_NAMES.len();
+            }
+            let name = HANDLE_NAMES[ni];
             hn.push(name);
             let (w, s) = if hi == 0 {
                 let ins = dut.inputs();
